@@ -617,7 +617,9 @@ func main() {
 					skel.WriteString("]\n")
 					fmt.Fprintf(&skel, "def %s_lits : List String := %s\n\n", id, leanStrList(lits))
 				case *ast.GenDecl:
-					if x.Tok != token.IMPORT {
+					// type and var declarations (a new or changed constant only matters through the functions
+					// that use it, or through Tie/Consts when it is one of the constants the models mirror)
+					if x.Tok == token.TYPE || x.Tok == token.VAR {
 						declText = append(declText, pr(x))
 					}
 					if x.Tok == token.TYPE {
@@ -674,7 +676,7 @@ func main() {
 				}
 			}
 		}
-		// all package-level type / var / const declarations of the package (source order, file by file)
+		// all package-level type / var declarations of the package (source order, file by file)
 		dh := sha256.Sum256([]byte(strings.Join(declText, "\x1e")))
 		hashes = append(hashes, [2]string{p.name + ".#decls", hex.EncodeToString(dh[:])[:16]})
 		skel.WriteString("end " + p.name + "\n\n")
